@@ -493,6 +493,22 @@ example : parseStr (ascii "-2^2") = some (.bin false [94] (.un [45] (.lit [50]))
     parseStr (ascii "-abs(x)^2") = some (.bin false [94] (.un [45] (.un [97, 98, 115] (.grp [120] (.lit [120])))) (.lit [50])) := by
   decide +kernel
 
+/-- **Every pair of binary operators.**  For all 17 × 17 pairs `(o₁, o₂)` of keys of `ops` (table in /repo) the
+    text `a o₁ b o₂ c` parses as `a o₁ (b o₂ c)` exactly when `o₂` stands in a strictly tighter set of
+    `orderOfOps` than `o₁`, and as `(a o₁ b) o₂ c` otherwise (equal levels associate to the left, `^`
+    included: `a^b^c = (a^b)^c`); and with a one-character unary operator in front of any operand
+    (`-a o b`, `a o !b`) the unary operator takes that operand only.  Fully enumerated. -/
+theorem operator_pairs_parse :
+    (Gen.C19.opKeys.all fun o1 => Gen.C19.opKeys.all fun o2 =>
+      parseStr ([97] ++ o1 ++ [98] ++ o2 ++ [99]) ==
+        some (if (level Gen.C19.orderOfOps o2).getD 0 < (level Gen.C19.orderOfOps o1).getD 0
+              then .bin false o1 (.lit [97]) (.bin false o2 (.lit [98]) (.lit [99]))
+              else .bin false o2 (.bin false o1 (.lit [97]) (.lit [98])) (.lit [99]))) = true ∧
+    (Gen.C19.opKeys.all fun o => [[45], [33]].all fun m =>
+      parseStr (m ++ [97] ++ o ++ [98]) == some (.bin false o (.un m (.lit [97])) (.lit [98])) &&
+      parseStr ([97] ++ o ++ m ++ [98]) == some (.bin false o (.lit [97]) (.un m (.lit [98])))) = true := by
+  decide +kernel
+
 /-! ## The IEEE-754 binary64 instance (`Rare/Model/C19F64.lean`) -/
 
 section ieee
@@ -1072,6 +1088,12 @@ theorem special_values_constants_and_bindings :
     evalF64 (ascii "x - x") (inf false).bits = evalF64 (ascii "inf - inf") 0 ∧
     evalF64 (ascii "inf - inf") 0 = some F64.nan.bits := by
   decide +kernel
+
+/-- There are no named constants and no signed exponents: `pi` and `e` are variables, and `1e-3` is
+    `1e`, `-`, `3` to the tokenizer (`1e` is not a number: compile error) – `1e3`, `0.001` are the spellings. -/
+example : classify arithT (ascii "pi") = some (.named (ascii "pi")) ∧ classify arithT (ascii "e") = some (.named (ascii "e")) ∧
+    evalF64 (ascii "1e-3") 0 = none ∧ evalF64 (ascii "0.001") 0 = some 0x3F50624DD2F1A9FC ∧
+    evalF64 (ascii "1e3") 0 = some (ofInt 1000).bits := by decide +kernel
 
 end ieee
 
